@@ -60,7 +60,10 @@ CanInvite(i, j) == /\ i # j /\ prof[i].age = 3
                                           [] prof[j].age = 1 -> {Verified, Human, Suspended}
                                           [] OTHER           -> {Verified, Human, Suspended, Zombie})
                    /\ \A k \in Ids : (k < j /\ rel[k].inviter = i) => prof[k].age # prof[j].age
-Inviters(j) == IF ~RelOn \/ prof[j].age = 3 THEN {None} ELSE {None, God} \cup {i \in Ids : CanInvite(i, j)}
+\* the inviter link lasts while the invitee is Candidate / Newbie (it is cut when the invitee becomes Verified); a god address
+\* without identity loses its invitees at every epoch end, so it only counts for candidates it invited in this epoch
+Inviters(j) == IF ~RelOn \/ prof[j].age = 3 \/ prof[j].prev \notin {Candidate, Newbie} THEN {None}
+               ELSE {None} \cup (IF env.god = "V" \/ prof[j].age = 0 THEN {God} ELSE {}) \cup {i \in Ids : CanInvite(i, j)}
 Reportable(i) == IF RelOn THEN {j \in Ids \ {i} : prof[j].rep > 0} ELSE {}
 
 MCInit == /\ prof = [i \in Ids |-> Blank] /\ rel = [i \in Ids |-> NoRel]
